@@ -9,6 +9,7 @@ EXPLANATION = ("C07: responses are delivered only after a successful lookup of t
                "before a new id is allocated; every receive passes the deadline / no-survey test before it is served or "
                "parked and is clamped to the survey deadline; the respondent side records and clears its routing state like "
                "rep0 and obeys the shared hop-loop facts.")
+EXPLANATION += ' Round 5: the deadline clamp covers the absolute-expiry mode of an aio (R7).'
 
 is_call = c04.is_call
 fld = c04.fld
@@ -147,6 +148,46 @@ def rule_r5(ctx):
         check_hop_loop(ctx, r, ctx.prog.need(name, file), raw)
 
 
+# ---------------------------------------------------------------------------
+# R7: the survey deadline limits a receive however the aio carries its own time limit
+
+def rule_r7(ctx):
+    r = ctx.rule("C07.R7", "T3", "an aio carries its time limit either as a relative timeout or as an absolute expiry (nni_aio_start uses "
+                 "the absolute one alone when a_use_expire is set): a function outside aio.c that reads the relative timeout "
+                 "(nni_aio_get_timeout) to decide whether it must pull the operation's limit in to a deadline also looks at the "
+                 "absolute mode -- otherwise an aio armed with nng_aio_set_expire escapes the deadline and a response that "
+                 "arrives after the survey has expired is delivered", floor=1)
+    prog = ctx.prog
+    start = prog.need("nni_aio_start", "core/aio.c")
+    if not any(m.get("k") == "mem" and m.get("f") == "a_use_expire" for t in start.sites() for m in walk(t.node)):
+        raise AnalysisBroken("nni_aio_start no longer distinguishes the absolute expiry (a_use_expire)")
+    n = 0
+    for f in prog.functions:
+        if f.cfg_failed or f.file.endswith(("core/aio.c", "_test.c")) or f.file.endswith("/nng.c"):
+            continue
+        gets = list(f.calls("nni_aio_get_timeout"))
+        if not gets:
+            continue
+        n += 1
+        clamps = list(f.calls("nni_aio_set_expire"))
+        # the absolute mode is handled: some clamp is made on the edge on which a_use_expire is known to be set (or the
+        # decision is delegated to an aio.c helper that knows both modes)
+        reads_mode = any(c.node.get("fn") in ("nni_aio_get_expire", "nni_aio_limit_expire") for c in f.calls())
+        for bid, k, atom, val in G.edge_facts(f):
+            if val and atom.get("k") == "mem" and atom.get("f") == "a_use_expire" and any(
+                    G.dominated(f, (c.b, c.i), {bid: k}) for c in clamps):
+                reads_mode = True
+        if clamps and not reads_mode:
+            ctx.fail(r, f, "deadline clamp decided on the relative timeout alone", gets[0].line,
+                     "%s decides from nni_aio_get_timeout (line %s) whether to pull the operation in to its deadline "
+                     "(nni_aio_set_expire line %s) and never looks at the absolute mode: an aio armed with nng_aio_set_expire "
+                     "keeps its later expiry and outlives the deadline" % (f.name, gets[0].line, clamps[0].line))
+        else:
+            r.ob(f, "%s reads the relative timeout and %s" % (f.name, "the absolute mode too" if reads_mode else "does not clamp"))
+    if n < 1:
+        raise AnalysisBroken("nobody reads an aio's timeout any more (nni_aio_get_timeout)")
+
+
 def run(ctx):
     ctx.guard(rule_r1)
     ctx.guard(rule_r2)
@@ -161,3 +202,4 @@ def run(ctx):
         if rr.id.startswith("C04."):
             rr.id = rr.id.replace("C04.", "C07.S")
     ctx.guard(rule_r5)
+    ctx.guard(rule_r7)
